@@ -1,0 +1,83 @@
+//go:build verif
+// +build verif
+
+package masswallet
+
+// Accessors used by the verification harness (/verif). Add-only; compiled only
+// with the build tag "verif". They expose existing behaviour, they do not change it.
+
+import (
+	"github.com/massnetorg/mass-core/wire"
+	mwdb "massnet.org/mass-wallet/masswallet/db"
+	"massnet.org/mass-wallet/masswallet/ifc"
+	"massnet.org/mass-wallet/masswallet/keystore"
+	"massnet.org/mass-wallet/masswallet/txmgr"
+)
+
+// VerifHandler returns the notification handler created by NewWalletManager.
+func (w *WalletManager) VerifHandler() *NtfnsHandler { return w.ntfnsHandler }
+
+// VerifStores exposes the stores for read-only dumps.
+func (w *WalletManager) VerifStores() (*txmgr.UtxoStore, *txmgr.TxStore, *txmgr.SyncStore, *keystore.KeystoreManager, mwdb.DB) {
+	return w.utxoStore, w.txStore, w.syncStore, w.ksmgr, w.db
+}
+
+// VerifChainFetcher returns the chain fetcher in use.
+func (w *WalletManager) VerifChainFetcher() ifc.ChainFetcher { return w.chainFetcher }
+
+// VerifQueueLen is the number of queued, not yet taken, blocks and transactions.
+func (h *NtfnsHandler) VerifQueueLen() int { return len(h.queueBlock) + len(h.queueMsgTx) }
+
+// VerifBarrier returns once the handler goroutine is idle in its select loop
+// (it performs one suspend/resume hand-shake, exactly like the background worker does).
+func (h *NtfnsHandler) VerifBarrier() {
+	h.suspend(false, "", nil)
+	h.resume(false, "", nil)
+}
+
+// VerifProcessBlock runs the handler's block processing synchronously.
+func (h *NtfnsHandler) VerifProcessBlock(b *wire.MsgBlock) error { return h.processConnectedBlock(b) }
+
+// VerifReceiveTx runs the handler's processing of an unconfirmed transaction
+// (proccessReceivedTx without the two p2p look-ups that need a network stack).
+func (h *NtfnsHandler) VerifReceiveTx(tx *wire.MsgTx) (bool, error) {
+	var readyWallets map[string]struct{}
+	err := mwdb.View(h.walletMgr.db, func(rtx mwdb.ReadTransaction) (err error) {
+		readyWallets, err = h.getReadyWallets(rtx)
+		return
+	})
+	if err != nil {
+		return false, err
+	}
+	rel, _, err := h.filterTx(tx, nil, nil, readyWallets)
+	return rel, err
+}
+
+// VerifBest returns the handler's volatile copy of the tip.
+func (h *NtfnsHandler) VerifBest() txmgr.BlockMeta {
+	h.memMtx.Lock()
+	defer h.memMtx.Unlock()
+	return h.bestBlock
+}
+
+// VerifMempool returns the handler's volatile set of known pending transactions.
+func (h *NtfnsHandler) VerifMempool() []wire.Hash {
+	h.memMtx.Lock()
+	defer h.memMtx.Unlock()
+	res := make([]wire.Hash, 0, len(h.mempool))
+	for k := range h.mempool {
+		res = append(res, k)
+	}
+	return res
+}
+
+// VerifTaskChanReady reports whether the worker goroutine has created its task queue.
+func (h *NtfnsHandler) VerifTaskChanReady() bool { return h.taskChan != nil }
+
+// VerifTaskQueueLen is the number of queued background tasks.
+func (h *NtfnsHandler) VerifTaskQueueLen() int {
+	if h.taskChan == nil {
+		return 0
+	}
+	return len(h.taskChan.C)
+}
